@@ -115,6 +115,32 @@ w_log([_|T], V) :- w_log(T, V).
 w_log_len(L, 0) :- var(L), !.
 w_log_len([_|T], N) :- w_log_len(T, N0), N is N0 + 1.
 
+% attributed variables bound by head unification: the rest of such a head runs in the
+% machine's second dispatch loop (verify_attr_dispatch_loop)
+w_attrhead(N, R) :- numlist(1, N, L), w_ah(L, 0, R).
+w_ah([], S, S).
+w_ah([K|Ks], S0, S) :-
+    c31att:c31_mark(V, K), w_ah_head(V, K, T), T = f(_, _, Len),
+    S1 is S0 + K + Len, w_ah(Ks, S1, S).
+w_ah_head(g(X, [e0,e1,e2,e3,e4,e5,e6,e7,e8,e9,e10,e11,e12,e13,e14,e15,e16,e17,e18,e19,e20,e21,e22,e23,e24,e25,e26,e27,e28,e29,e30,e31,e32,e33,e34,e35,e36,e37,e38,e39], "some text", h(i(j), k(l(m), n(o, p(q, r(s)))))), X,
+          f([1,2,3,4,5,6,7,8,9,10,11,12], g(h(i(j(k(l(m(n(o)))))))), 3)).
+
+% C31: goals that go on after the handler of an interrupted workload, inside the same query
+c31_memq(X, [Y|_], y) :- X == Y, !.
+c31_memq(X, [_|T], R) :- !, c31_memq(X, T, R).
+c31_memq(_, _, n).
+c31_resid(W, B, K) :-
+    call_residue_vars(( freeze(X, true), dif(Y, a), catch(W, B, true), freeze(Z, true) ), Vs),
+    c31_memq(X, Vs, KX), c31_memq(Y, Vs, KY), c31_memq(Z, Vs, KZ),
+    X = 1, Y = b, Z = 2, K = k(KX, KY, KZ).
+c31_after(W, B, K) :-
+    freeze(X, K1 = woke), dif(Y, Z), bb_b_put(c31k, v(1)), L0 = [a,b,c],
+    catch(W, B, true),
+    X = 1, ( Y = Z -> K2 = same ; K2 = differ ), bb_get(c31k, K3),
+    findall(E-E2, ( member(E, L0), member(E2, [1,2]) ), K4),
+    copy_term(f(Y, Z), K5, K6),
+    K = k(K1, K2, K3, K4, K5, K6).
+
 w_assoc(N, R) :-
     numlist(1, N, L), empty_assoc(A0), foldl(w_put, L, A0, A),
     assoc_to_keys(A, Ks), length(Ks, Len), get_assoc(1, A, V), R = Len-V.
